@@ -159,9 +159,11 @@ def run(res, tier, br, model_ok=True, search=False):
 def count_cli(name, text, how, d):
     import os, json
     from impl import main_inprocess
-    if how == "file":
+    if how.startswith("file"):
+        # the header is looked for whatever the other options are
+        extra = {"file": [], "file-R": ["-R", "CheckDefine"], "file-R2": ["-R", "Foo", "--no-colors"], "file-o": ["-o"]}[how]
         open(os.path.join(d, name), "w").write(text)
-        out = main_inprocess(["-f", "json", name], d)
+        out = main_inprocess(extra + ["-f", "json", name], d)
     else:
         out = main_inprocess(["-f", "json", "--hfile" if name.endswith(".h") else "--cfile", text, "--filename", name], d)
     jl = [l for l in out["stdout"].split("\n") if l.startswith("{")]
@@ -178,7 +180,7 @@ def cli_entries(res, rng, entry, n):
     d = tempfile.mkdtemp(prefix="verif_c13_")
     try:
         for name, vname, text, want in pick:
-            for how in ("file", "inline"):
+            for how in ("file", "inline", rng.choice(["file-R", "file-R", "file-R2", "file-o"])):
                 got, out = count_cli(name, text, how, d)
                 res.count("header.cli", 1)
                 if got is None:
